@@ -278,6 +278,10 @@ Proof. exact Builder_query. Qed.
 Print Assumptions C12_Builder_query.
 
 (** * widening: Of and OfMany on EVERY input *)
+(** These two theorems describe the code AS IT IS outside the property's domain (ascending lists).  They are what makes
+    "the bitmap Of would build" meaningful for OfMany when a position >= its segment's size breaks the ascending order.
+    At run time only the relation OfMany(subs, sizes) = Of(shifted concatenation, sum) is compared there
+    (op bitmap.OfMany/asOf, theorem C12_OfMany_eq), so a change of Of's behaviour on unsorted lists is not flagged. *)
 (** no hypothesis on the list at all (unsorted, duplicates, negative positions): Of sizes the result from n and
     the LAST element; it panics exactly when some position lies outside those bits, and otherwise returns
     ceil(max(n, last+1, 0)/64) words whose 1-bits are exactly the set of listed positions *)
@@ -294,11 +298,6 @@ Theorem C12_OfMany_total : forall subs sizes, length subs = length sizes ->
   else OfMany subs sizes = None.
 Proof. exact OfMany_total. Qed.
 Print Assumptions C12_OfMany_total.
-
-(** the boolean checker used by the run accepts only what the statement allows *)
-Theorem C12_Of_any_checker : forall ps opt o, spec_Of_any_ok ps opt o = true -> spec_Of_any ps opt o.
-Proof. exact spec_Of_any_ok_sound. Qed.
-Print Assumptions C12_Of_any_checker.
 
 (** * non-vacuity *)
 (** Of: positions at 63/64/65 and a gap of more than 3 words, n smaller than last+1 *)
